@@ -21,7 +21,7 @@ EXPLANATION = "Which features are enabled, the server's answer to the cancel req
 OPEN_KINDS = ["session", "direct-tcpip", "x11", "auth-agent@openssh.com", "forwarded-tcpip", "bogus"]
 GLOBAL_KINDS = ["tcpip-forward", "cancel-tcpip-forward", "keepalive@openssh.com", "hostkeys-00@openssh.com"]
 REQ_KINDS = ["exec", "shell", "subsystem", "pty-req", "env", "x11-req", "auth-agent-req@openssh.com", "window-change", "bogus"]
-FWD = ["never-requested", "active", "cancelled", "cancel-refused-by-server"]
+FWD = ["never-requested", "active", "request-denied-by-server", "cancelled", "cancel-refused-by-server"]
 
 
 def _client(ctx, script):
@@ -48,7 +48,13 @@ def open_case():
                 if agent:
                     t._set_forward_agent_handler(lambda chan: got.append(("agent", chan)))
                 if fwd != "never-requested":
-                    t._tcp_handler = lambda chan, o, s: got.append(("tcp", chan))      # what request_port_forward sets
+                    # the real request_port_forward; the server's answer to the tcpip-forward global request is the environment
+                    from paramiko.ssh_exception import SSHException
+                    t.global_request = lambda *a, **k: (None if fwd == "request-denied-by-server" else Message())
+                    try:
+                        t.request_port_forward("h", 1, handler=lambda chan, o, s: got.append(("tcp", chan)))
+                    except SSHException:
+                        pass
                 if fwd in ("cancelled", "cancel-refused-by-server"):
                     t.global_request = lambda *a, **k: (Message() if fwd == "cancelled" else None)
                     t.cancel_port_forward("h", 1)
